@@ -1,6 +1,7 @@
 import CJ.Drv.Loop
 import CJ.Drv.AtomicStore
 import CJ.Drv.AssetsMem
+import CJ.Drv.AssetsConc
 /-! Driver for C20: the atomic-store model (system-call level) and the in-memory model of the asset store (call level). -/
 open CJ.Drv
 
@@ -8,4 +9,5 @@ def main : IO Unit := runDriver fun
   | "store" :: args => AtomicStore.handle args
   | "crash" :: args => AtomicStore.handleCrash args
   | "mem" :: args => AssetsMem.handle args
+  | "conc" :: args => AssetsConc.handle args
   | _ => none
